@@ -52,6 +52,7 @@ pub proof fn lemma_texts_drop<T: ?Sized>(v: Seq<&T>)
 pub proof fn lemma_norm_fold_push(l: Seq<Seq<u8>>, s: Seq<u8>, relative: bool)
     ensures norm_fold(l.push(s), relative) == norm_step(norm_fold(l, relative), s, relative),
 {
+    reveal(path_fits); reveal(emb_fits);
     assert(l.push(s).drop_last() =~= l);
 }
 } // verus!
@@ -121,6 +122,7 @@ pub open spec fn normalize_text(p: Seq<u8>, fa: bool, at0: bool) -> Seq<u8> {
 pub proof fn lemma_join_push(l: Seq<Seq<u8>>, s: Seq<u8>)
     ensures join_slash(l.push(s)) == (if l.len() == 0 { s } else { join_slash(l) + sq1(47) + s }),
 {
+    reveal(path_fits); reveal(emb_fits);
     assert(l.push(s).drop_last() =~= l);
 }
 } // verus!
@@ -146,6 +148,7 @@ pub proof fn lemma_split_shape(p: Seq<u8>, i: int)
     ensures all_segs(split_from(p, i)),
     decreases p.len() - i
 {
+    reveal(path_fits); reveal(emb_fits);
     lemma_first_of_bounds(p, i, C_SLASH);
     let e = first_of(p, i, C_SLASH);
     let e2 = if e >= p.len() { p.len() as int } else { e };
@@ -165,6 +168,7 @@ pub proof fn lemma_segs_shape(p: Seq<u8>)
     requires path_shape(p),
     ensures all_segs(segs(p)),
 {
+    reveal(path_fits); reveal(emb_fits);
     if !p_is_empty(p) { lemma_split_shape(p, p_first_off(p)); }
 }
 pub proof fn lemma_norm_fold_shape(l: Seq<Seq<u8>>, relative: bool)
@@ -172,6 +176,7 @@ pub proof fn lemma_norm_fold_shape(l: Seq<Seq<u8>>, relative: bool)
     ensures all_segs(norm_fold(l, relative)),
     decreases l.len()
 {
+    reveal(path_fits); reveal(emb_fits);
     if l.len() > 0 {
         lemma_norm_fold_shape(l.drop_last(), relative);
         lemma_norm_step_shape(norm_fold(l.drop_last(), relative), l.last(), relative);
@@ -182,6 +187,7 @@ pub proof fn lemma_join_shape(l: Seq<Seq<u8>>)
     ensures path_shape(join_slash(l)),
     decreases l.len()
 {
+    reveal(path_fits); reveal(emb_fits);
     if l.len() > 1 {
         lemma_join_shape(l.drop_last());
         let a = join_slash(l.drop_last());
@@ -197,6 +203,7 @@ pub proof fn lemma_normalize_shape(p: Seq<u8>, fa: bool, at0: bool)
     requires path_shape(p),
     ensures path_shape(normalize_text(p, fa, at0)),
 {
+    reveal(path_fits); reveal(emb_fits);
     lemma_segs_shape(p);
     lemma_norm_fold_shape(segs(p), !p_is_abs(p));
     let n = norm_segs(p);
@@ -216,12 +223,14 @@ verus! {
 pub proof fn lemma_join_len(l: Seq<Seq<u8>>, s: Seq<u8>)
     ensures join_slash(l.push(s)).len() == join_slash(l).len() + (if l.len() > 0 { 1int } else { 0int }) + s.len(),
 {
+    reveal(path_fits); reveal(emb_fits);
     lemma_join_push(l, s);
 }
 pub proof fn lemma_join_drop(l: Seq<Seq<u8>>)
     requires l.len() > 0,
     ensures join_slash(l.drop_last()).len() <= join_slash(l).len(), l.len() >= 2 ==> join_slash(l.drop_last()).len() + 1 <= join_slash(l).len(),
 {
+    reveal(path_fits); reveal(emb_fits);
     if l.len() == 1 { assert(l.drop_last().len() == 0); }
 }
 /// normalisation never lengthens: the joined normalized sequence is no longer than the joined input,
@@ -232,6 +241,7 @@ pub proof fn lemma_norm_len(l: Seq<Seq<u8>>, relative: bool)
         join_slash(norm_fold(l, relative)).len() <= join_slash(l).len(),
     decreases l.len()
 {
+    reveal(path_fits); reveal(emb_fits);
     if l.len() > 0 {
         let l0 = l.drop_last();
         let s = l.last();
@@ -249,6 +259,7 @@ pub proof fn lemma_join_split(p: Seq<u8>, i: int)
     ensures join_slash(split_from(p, i)) =~= p.subrange(i, p.len() as int), split_from(p, i).len() <= p.len() - i + 1,
     decreases p.len() - i
 {
+    reveal(path_fits); reveal(emb_fits);
     lemma_first_of_bounds(p, i, C_SLASH);
     let e = first_of(p, i, C_SLASH);
     if e < p.len() {
@@ -264,6 +275,7 @@ pub proof fn lemma_join_front(s: Seq<u8>, l: Seq<Seq<u8>>)
     ensures join_slash(seq![s] + l) =~= s + sq1(47) + join_slash(l),
     decreases l.len()
 {
+    reveal(path_fits); reveal(emb_fits);
     let all = seq![s] + l;
     assert(all.drop_last() =~= seq![s] + l.drop_last());
     assert(all.last() == l.last());
@@ -280,6 +292,7 @@ pub proof fn lemma_normalize_len(p: Seq<u8>, fa: bool, at0: bool)
         join_slash(norm_segs(p)).len() + p_first_off(p) <= p.len(),
         normalize_text(p, fa, at0).len() <= p.len() + 2,
 {
+    reveal(path_fits); reveal(emb_fits);
     lemma_norm_len(segs(p), !p_is_abs(p));
     if !p_is_empty(p) { lemma_join_split(p, p_first_off(p)); }
 }
@@ -288,6 +301,7 @@ pub proof fn lemma_join_prefix_len(a: Seq<Seq<u8>>, b: Seq<Seq<u8>>)
     ensures join_slash(a).len() <= join_slash(a + b).len(),
     decreases b.len()
 {
+    reveal(path_fits); reveal(emb_fits);
     if b.len() > 0 {
         lemma_join_prefix_len(a, b.drop_last());
         assert((a + b).drop_last() =~= a + b.drop_last());
@@ -301,4 +315,84 @@ pub proof fn lemma_join_prefix_len(a: Seq<Seq<u8>>, b: Seq<Seq<u8>>)
 verus! {
 pub assume_specification<A: smallvec::Array> [smallvec::SmallVec::<A>::is_empty] (v: &smallvec::SmallVec<A>) -> (r: bool)
     ensures r == (sv_view(v).len() == 0);
+} // verus!
+verus! {
+/// the rendering of a non-empty sequence starts with its first segment, followed by '/' or the end
+pub proof fn lemma_join_head(n: Seq<Seq<u8>>)
+    requires n.len() > 0,
+    ensures
+        join_slash(n).len() >= n[0].len(),
+        join_slash(n).subrange(0, n[0].len() as int) =~= n[0],
+        join_slash(n).len() > n[0].len() ==> join_slash(n)[n[0].len() as int] == 47,
+        n.len() == 1 ==> join_slash(n) == n[0],
+{
+    reveal(path_fits); reveal(emb_fits);
+    if n.len() > 1 {
+        let l = n.drop_first();
+        assert(n =~= seq![n[0]] + l);
+        lemma_join_front(n[0], l);
+    }
+}
+/// in-place normalisation keeps the path unambiguous in its context (absolute after an authority,
+/// no leading "//" without one, no ':' in a first segment that starts the reference)
+pub proof fn lemma_normalize_fits(p: Seq<u8>, fa: bool, at0: bool)
+    requires emb_fits(p, fa, at0),
+    ensures emb_fits(normalize_text(p, fa, at0), fa, at0), p_is_abs(normalize_text(p, fa, at0)) == p_is_abs(p) || (norm_segs(p).len() == 0 && !p_is_abs(p)),
+{
+    reveal(path_fits); reveal(emb_fits);
+    lemma_normalize_shape(p, fa, at0);
+    lemma_segs_shape(p);
+    lemma_norm_fold_shape(segs(p), !p_is_abs(p));
+    let n = norm_segs(p);
+    let abs = p_is_abs(p);
+    let pre = p.subrange(0, p_first_off(p));
+    let sh = if norm_shield(n, abs, fa, at0) { sq2(46, 47) } else { sq0() };
+    let j = join_slash(n);
+    let r = normalize_text(p, fa, at0);
+    assert(r =~= pre + sh + j);
+    if n.len() > 0 {
+        lemma_join_head(n);
+        let s0 = n[0];
+        assert(seg_shape(s0));
+        lemma_cs_is_csqf_seg(s0);
+        if abs {
+            assert(r[0] == 47);
+            if sh.len() > 0 { assert(r[1] == 46); }
+            else if j.len() > 0 {
+                assert(r[1] == j[0]);
+                if s0.len() > 0 { assert(j[0] == s0[0]); } else { assert(j[0] == 47); }
+            }
+            lemma_first_of_is(r, 0, C_CSQF, 0);
+        } else {
+            if sh.len() > 0 {
+                assert(r[0] == 46 && r[1] == 47);
+                assert(first_of(r, 0, C_CSQF) == first_of(r, 1, C_CSQF));
+                lemma_first_of_is(r, 1, C_CSQF, 1);
+            } else {
+                // first segment of r is s0 (non-empty, no shield needed)
+                assert(s0.len() > 0);
+                assert(r =~= j);
+                assert(r[0] == s0[0]);
+                if at0 && !fa {
+                    // no ':' in s0, and after it comes '/' or the end
+                    lemma_first_of_bounds(s0, 0, C_CSQF);
+                    assert(first_of(s0, 0, C_CSQF) == s0.len()) by {
+                        lemma_first_of_bounds(s0, 0, C_CS);
+                        if first_of(s0, 0, C_CSQF) < s0.len() { }
+                    }
+                    assert forall|k: int| 0 <= k < s0.len() implies !cls(C_CSQF, #[trigger] r[k]) by { assert(r[k] == s0[k]); }
+                    lemma_first_of_is(r, 0, C_CSQF, s0.len() as int);
+                }
+            }
+        }
+    } else {
+        assert(r =~= pre);
+        if abs { lemma_first_of_is(r, 0, C_CSQF, 0); }
+    }
+}
+} // verus!
+
+verus! {
+/// total length (texts + one separator each) of what an iterator still yields
+pub uninterp spec fn view_texts_len<T>(t: &T) -> nat;
 } // verus!
